@@ -91,8 +91,8 @@ func probe(g *gwbox.Gateway, host, path string, cap int) (admitted int, err stri
 
 // TestPropSlotsReturnedOnEveryExitPath: the ledger at HTTP level.
 func TestPropSlotsReturnedOnEveryExitPath(t *testing.T) {
-	sub := stats.NewSub("http-exit-paths", "rapid: a max-in-flight(M in 1..3) schema on the 'pods' policy of a two-endpoint cluster behind the real chain + dispatcher; K in 0..M-1 requests are held open at the stable endpoint for the whole history (so that a slot returned twice is visible, the counter cannot go below zero); 1-8 further requests run to completion, each ending in a generated way (200; upstream 5xx; upstream resets the connection mid-body; no ready endpoint = 503 after the slot was taken; client aborts while the upstream holds the response; client aborts mid-stream; panic injected into the response writer; the endpoint serving the request is removed from the cluster spec while it is in flight), up to M-K of them concurrently; oracle: afterwards exactly M-K more requests are admitted concurrently (held open at the stub) and the next one is answered 429, and after the K held requests finished exactly M; the 'other' schema of the cluster and a second cluster still admit their own limit; non-trivial = at least one abnormal ending; distinct by FNV-64 of the plan")
-	endings := []string{"ok", "upstream-5xx", "upstream-reset", "no-ready-endpoint", "client-abort-waiting", "client-abort-streaming", "writer-panic", "endpoint-removed", "endpoint-removed"}
+	sub := stats.NewSub("http-exit-paths", "rapid: a max-in-flight(M in 1..3) schema on the 'pods' policy of a two-endpoint cluster behind the real chain + dispatcher; K in 0..M-1 requests are held open at the stable endpoint for the whole history (so that a slot returned twice is visible, the counter cannot go below zero); 1-8 further requests run to completion, each ending in a generated way (200; upstream 5xx; upstream resets the connection mid-body; no ready endpoint = 503 after the slot was taken; client aborts while the upstream holds the response; client aborts mid-stream; panic injected into the response writer; a panic before the proxy handler runs (watch on a resource name that is not valid UTF-8, which the watcher gauge refuses); the endpoint serving the request is removed from the cluster spec while it is in flight), up to M-K of them concurrently; oracle: afterwards exactly M-K more requests are admitted concurrently (held open at the stub) and the next one is answered 429, and after the K held requests finished exactly M; the 'other' schema of the cluster and a second cluster still admit their own limit; non-trivial = at least one abnormal ending; distinct by FNV-64 of the plan")
+	endings := []string{"ok", "upstream-5xx", "upstream-reset", "no-ready-endpoint", "client-abort-waiting", "client-abort-streaming", "writer-panic", "endpoint-removed", "endpoint-removed", "panic-before-proxying"}
 	stats.Check(t, stats.N(80, 600), func(t *rapid.T) {
 		m := int32(rapid.IntRange(1, 3).Draw(t, "M"))
 		n := rapid.IntRange(1, 8).Draw(t, "requests")
@@ -256,6 +256,10 @@ func TestPropSlotsReturnedOnEveryExitPath(t *testing.T) {
 					}
 					close(hold)
 					<-done
+				case "panic-before-proxying":
+					// a watch on a resource whose name is not valid UTF-8: the watcher gauge refuses the label value and
+					// panics after the slot (of the catch-all policy's schema) was taken, before the proxy handler runs
+					g.Do(ctx, gwbox.RawRequest{Method: "GET", Target: "/api/v1/%ff%fe?watch=true", Host: "lim1", Headers: hdr})
 				case "writer-panic":
 					httpPool.SetReply(id, &gwbox.Reply{Status: 200, Body: []byte("will not arrive")})
 					req.Headers = append(req.Headers, [2]string{"X-Verif-Panic", "1"})
